@@ -102,6 +102,9 @@ def case(spec):
     rng = random.Random("C16c|%s|%s" % (spec["seed"], spec["n"]))
     scripts = build_outputs(spec)
     chain = sc.embed_chain(rng, coin, [s for _, s in scripts], outs_per_tx=rng.choice([1, 3, 7]), txs_per_block=rng.choice([1, 2, 5]), coinbase_share=0.3)
+    if spec["n"] % 2 == 0:
+        # identical transactions (coinbases with an OP_RETURN output among them) in different blocks: every occurrence prints its own line
+        chain = gen.add_duplicate_txs(rng, chain, coin)
     work = harness.fresh(os.path.join(spec["work"], "c%d" % spec["n"]))
     d = os.path.join(work, "d")
     datadir.write_datadir(d, COINS[coin], harness.simple_layout(chain))
